@@ -40,8 +40,13 @@ def main():
             return "loop"
         return "other"
 
+    srcfile = code.co_filename
+
     def on_line(c, line):
-        if line < loop_start:
+        if c is not code or line < loop_start:
+            # coverage record (once per location) for the tool's own source file; everything else is switched off
+            if c.co_filename == srcfile:
+                os.write(fd, ("C\t%d\n" % line).encode())
             return mon.DISABLE
         n[0] += 1
         os.write(fd, ("%d\t%s\t%d\n" % (n[0], kind(line), line)).encode())
@@ -53,7 +58,7 @@ def main():
                 signal.raise_signal(signal.SIGINT)
 
     mon.register_callback(tool, mon.events.LINE, on_line)
-    mon.set_local_events(tool, code, mon.events.LINE)
+    mon.set_events(tool, mon.events.LINE)
     rc = fn(args)
     os.write(fd, ("DONE\t%r\n" % (rc,)).encode())
     sys.exit(rc or 0)
